@@ -43,6 +43,9 @@ def draw_case(dec, p="cfg", kinds=("stub_int", "stub_path", "stub_tabgrid", "rea
                             rank=dec.pick(f"{p}/rank/{i}", [3, 1]), odd=bool(dec(f"{p}/odd/{i}", 2)))
                        for i in range(cfg["ncalc"])]
         cfg["symmetrize"] = bool(dec.chance(f"{p}/symmetrize", 2, 3))
+        cfg["stub_shift"] = [0.0, 0.7, 1.3][dec(f"{p}/stub_shift", 3)]
+        for i, cc in enumerate(cfg["calc"]):
+            cc["smooth"] = bool(cc["nE"] >= 3 and dec.chance(f"{p}/smooth/{i}", 1, 2))
     elif kind == "stub_tabgrid":
         cfg["NKFFT"] = [1 if not per else [1, 2, 3][dec(f"{p}/NKFFT", 3)] for per in cfg["sym"]["periodic"]]
         if cfg["sym"]["constraint"] == "cubic":
@@ -110,13 +113,15 @@ def build(cfg):
         pg = system.pointgroup if cfg["use_irred_kpt"] else None
         calcs = {}
         for i, c in enumerate(cfg["calc"]):
-            calcs[f"stub{i}"] = zoo.StubCalc(c["seed"], nE=c["nE"], rank=c["rank"], pointgroup=pg, odd=c["odd"])
+            calcs[f"stub{i}"] = zoo.StubCalc(c["seed"], nE=c["nE"], rank=c["rank"], pointgroup=pg, odd=c["odd"],
+                                             smooth=c.get("smooth", False))
         if cfg["steer"] != "natural":
             mesh = cfg["adpt_mesh"]
             nd = int(np.prod(mesh)) if isinstance(mesh, list) else mesh ** int(sum(cfg["sym"]["periodic"]))
             calcs["steer"] = zoo.SteerCalc(cfg["steer"], cfg["steer_seed"], ndiv_prod=nd)
         kwargs = dict(adpt_num_iter=cfg["adpt_num_iter"], adpt_mesh=cfg["adpt_mesh"], adpt_fac=cfg["adpt_fac"],
-                      use_irred_kpt=cfg["use_irred_kpt"], symmetrize=cfg["symmetrize"], data_k_class=zoo.StubData)
+                      use_irred_kpt=cfg["use_irred_kpt"], symmetrize=cfg["symmetrize"], data_k_class=zoo.StubData,
+                      parameters_K=dict(stub_shift=cfg.get("stub_shift", 0.0)))
     elif kind == "stub_tabgrid":
         with zoo.quiet():
             grid = wb.Grid(system=system, NKdiv=cfg["NKdiv"], NKFFT=cfg["NKFFT"], use_symmetry=False)
